@@ -74,7 +74,7 @@ def border_bool(H, W, n):
 
 
 STYLES = ["none", "empty", "random", "random", "most-border", "rows", "corner", "interior"]
-CALLS = ["arg", "masked_array", "arg", "masked_array", "arg-int", "arg-float", "both", "both-empty"]
+CALLS = ["arg", "masked_array", "arg", "masked_array", "arg-int", "arg-float", "both", "both-empty", "arg-frac"]
 
 
 def split_mask(mask):
@@ -109,6 +109,9 @@ def call_real(image, mask, n, how):
             out = pri.estimate_sky(image, mask=mask.astype(int), n_pix_sample=n)
         elif how == "arg-float":
             out = pri.estimate_sky(image, mask=mask.astype(float), n_pix_sample=n)
+        elif how == "arg-frac":
+            # soft-edged masks (resampled, smoothed): any non-zero value masks the pixel
+            out = pri.estimate_sky(image, mask=mask.astype(float) * 0.4, n_pix_sample=n)
         else:
             out = pri.estimate_sky(image, mask=mask, n_pix_sample=n)
     finally:
@@ -130,7 +133,7 @@ def gen_cases(rng, n_cases):
         style = STYLES[int(rng.integers(0, len(STYLES)))]
         how = CALLS[int(rng.integers(0, len(CALLS)))]
         mask = make_mask(rng, H, W, n, style)
-        cases.append(dict(H=H, W=W, n=n, style=style, how=how if mask is not None else "nomask", mask=mask, ties=(k % 3 == 0)))
+        cases.append(dict(H=H, W=W, n=n, style=style, how=how if mask is not None else "nomask", mask=mask, ties=(k % 3 == 0), k=k))
     return cases
 
 
@@ -204,6 +207,21 @@ def oracle_case(rng, c):
         out.append(viol("median", f"median {med} != median of unmasked border set {emed}"))
     if not close(sc, esc):
         out.append(viol("scatter", f"scatter {sc} != biweight scale of unmasked border set {esc}"))
+    # a call must not leave anything behind in the caller's arrays: the same masked-array object, used again without the
+    # separate mask, gives the statistics of its own mask only
+    if how == "both" and mask is not None:
+        pri = _load()
+        own, arg = split_mask(mask)
+        obj = np.ma.masked_array(image.copy(), own.copy())
+        try:
+            pri.estimate_sky(obj, mask=arg, n_pix_sample=n)
+            m2, s2, c2 = pri.estimate_sky(obj, n_pix_sample=n)
+            e2 = expected_stats(image, own, n)
+            if int(c2) != e2[2] or not close(float(m2), e2[0]) or not close(float(s2), e2[1]):
+                out.append(viol("second-call", f"after a call with a separate mask, the same masked-array image evaluated again WITHOUT it gives "
+                                               f"(median, scatter, count) = ({float(m2):.6g}, {float(s2):.6g}, {int(c2)}), its own mask alone gives ({e2[0]:.6g}, {e2[1]:.6g}, {e2[2]})"))
+        except Exception as e:
+            out.append(viol("second-call", f"second call raised {type(e).__name__}: {e}"))
     # invariance under interior / masked perturbations
     img2 = image.copy()
     pert = ~keep
@@ -333,8 +351,13 @@ def oracle_source_properties(rng, c):
     image += 50 * np.exp(-((xx - W / 2) ** 2 + (yy - H / 2) ** 2) / 8.0)
     if c["mask"] is not None:
         mask = make_mask(rng, H, W, n, c["style"] if c["style"] not in ("none",) else "random")
+    mask_given = mask
+    if mask is not None:
+        # the documented ways of writing a mask: boolean, 0/1 integers or floats, and soft-edged floats (non-zero = masked)
+        form = ["frac", "bool", "int", "float"][c.get("k", H + W) % 4]
+        mask_given = {"bool": mask, "int": mask.astype(int), "float": mask.astype(float), "frac": mask.astype(float) * 0.4}[form]
     try:
-        sp = pri.SourceProperties(image, mask=mask)
+        sp = pri.SourceProperties(image, mask=mask_given)
     except Exception:
         return []  # photutils could not measure this image: outside this property
     emed, esc, ecnt, keep = expected_stats(image, mask, n)
@@ -344,7 +367,7 @@ def oracle_source_properties(rng, c):
         out.append(Violation(
             f"C17:source-properties:masked-border={'yes' if nm else 'no'}",
             f"SourceProperties sky_guess/sky_guess_err ({float(sp.sky_guess):.6g}, {float(sp.sky_guess_err):.6g}) differ from statistics of the unmasked border set ({emed:.6g}, {2 * esc / np.sqrt(ecnt):.6g}) (H={H}, W={W}, masked border pixels {nm})",
-            dict(kind="oracle-sp", H=H, W=W, n=n, style=c["style"], mask=None if mask is None else np.asarray(mask).astype(int).tolist())))
+            dict(kind="oracle-sp", H=H, W=W, n=n, style=c["style"], k=c.get("k", H + W), mask=None if mask is None else np.asarray(mask).astype(int).tolist())))
     # a border width other than the default, through both public entry points
     for entry in ("set_sky_guess", "measure_properties"):
         m = int(rng.integers(1, max(2, min(H, W) // 2 - 1)))
@@ -360,7 +383,7 @@ def oracle_source_properties(rng, c):
                 f"C17:source-properties-width:{entry}",
                 f"SourceProperties.{entry}(n_pix_sample={m}): sky_guess/sky_guess_err ({float(sp.sky_guess):.6g}, {float(sp.sky_guess_err):.6g}) are not the statistics "
                 f"of the {m}-pixel unmasked border ({emed:.6g}, {2 * esc / np.sqrt(ecnt):.6g}) (H={H}, W={W})",
-                dict(kind="oracle-sp", H=H, W=W, n=n, style=c["style"], mask=None if mask is None else np.asarray(mask).astype(int).tolist())))
+                dict(kind="oracle-sp", H=H, W=W, n=n, style=c["style"], k=c.get("k", H + W), mask=None if mask is None else np.asarray(mask).astype(int).tolist())))
     return out
 
 
@@ -390,7 +413,7 @@ def replay(ctx, payload):
     rng = ctx.rng("replay")
     m = None if payload.get("mask") is None else np.asarray(payload["mask"], dtype=bool)
     c = dict(H=payload["H"], W=payload["W"], n=payload["n"], style=payload.get("style", "replay"),
-             how=payload.get("how", "arg"), mask=m, ties=bool(payload.get("ties")))
+             how=payload.get("how", "arg"), mask=m, ties=bool(payload.get("ties")), k=payload.get("k", payload["H"] + payload["W"]))
     if payload.get("kind") == "oracle-sp":
         return oracle_source_properties(rng, c)
     return oracle_case(rng, c)
